@@ -33,6 +33,7 @@ type TierSpec struct {
 	PipeMs   int            `json:"pipe_timeout_ms"` // incremental-pipe cap per obligation (default 10000); small for FP-heavy harnesses
 	FeasMs   int            `json:"feas_timeout_ms"` // incremental-pipe cap per feasibility query (default 2000)
 	PipeS    int            `json:"pipe_timeout_s"` // incremental-pipe timeout per obligation (default 10); lower it for FP-heavy harnesses that only the portfolio decides
+	FeasMs2  int            `json:"feasibility_timeout_ms"` // same as feas_timeout_ms
 	Skip     bool           `json:"skip"`
 }
 
